@@ -24,7 +24,8 @@ Fixpoint kmem (k : key) (s : kset) : bool :=
 Inductive target :=
 | TFn (f : nat)                 (* call the contracted function f *)
 | TMeth (o : nat) (m : nat)     (* call public method m of instance o *)
-| TInit (o : nat).              (* run the (outermost or nested) constructor on instance o *)
+| TInit (o : nat)               (* run the (outermost or nested) constructor on instance o *)
+| TNew (o : nat).               (* create instance o of a class that defines __new__ and no __init__ *)
 
 Inductive action :=
 | ACall (t : target)
@@ -189,6 +190,12 @@ Section Interp.
               run_conj run (SInv o) 0 (cl_invs cd) ;;; Ret r))
              (SetP s (Ret tt)))).
 
+  (** the wrapper of __new__ of a class without a constructor of its own ([_decorate_new_with_invariants]):
+      the instance is created, then the invariants are evaluated; nothing is suspended meanwhile *)
+  Definition call_new (run : script -> prog bool) (o : nat) (cd : cls) : prog bool :=
+    Emit (EvSite (SInitBody o)) (r <- run (cl_init cd) ;;
+    run_conj run (SInv o) 0 (cl_invs cd) ;;; Ret r).
+
   Definition dispatch (run : script -> prog bool) (t : target) : prog bool :=
     match t with
     | TFn f =>
@@ -209,6 +216,11 @@ Section Interp.
         match class_of o with
         | None => raise_ EFuel
         | Some cd => call_init run o cd
+        end
+    | TNew o =>
+        match class_of o with
+        | None => raise_ EFuel
+        | Some cd => call_new run o cd
         end
     end.
 
